@@ -339,6 +339,7 @@ def cases_c12(types, rng, tier):
         for st in t["states"][:1]:
             inst = st["inst"]
             aids = []
+            denied = []
 
             def collect(node):
                 if node["k"] == "gate":
@@ -350,11 +351,22 @@ def cases_c12(types, rng, tier):
                     for f in node["fields"]:
                         if f["aid"]:
                             aids.append(f)
+                        if f["deny"]:
+                            denied.append(f)
                         collect(f["inst"])
             collect(inst)
-            if not aids:
+            if not aids and not denied:
                 continue
             ps = paths(inst, limit=40)
+            if denied:
+                # keys that are wrong BELOW a node (unknown name, index out of range, one key too many): a denial / accessor
+                # failure above decides before anything below is looked at
+                extra = []
+                for keys, idx, kind, n in ps:
+                    if keys:
+                        extra.append((keys + [("s", "zz_nope")], idx, "bad", n))
+                        extra.append((keys + [("i", 99)], idx, "bad", n))
+                ps = ps + extra[:60]
             modes_per = []
             for f in aids:
                 ms = [None]
